@@ -38,6 +38,18 @@ func goValidate(cc, code string) (idErr, partyErr string, panicked string) {
 		if err := id.Validate(); err != nil {
 			idErr = err.Error()
 		}
+		// the national rule belongs to the country, not to the tax scheme named on the identity:
+		// the same code under another scheme gets the same verdict
+		for _, sch := range []cbc.Code{"VAT", "GST", "IGIC"} {
+			ids := &tax.Identity{Country: l10n.TaxCountryCode(cc), Code: cbc.Code(code), Scheme: sch}
+			e2 := ""
+			if err := ids.Validate(); err != nil {
+				e2 = err.Error()
+			}
+			if (e2 == "") != (idErr == "") {
+				panic(fmt.Sprintf("scheme-dependent verdict: without scheme %q, with scheme %s %q", idErr, sch, e2))
+			}
+		}
 		p := &org.Party{Name: "x", TaxID: &tax.Identity{Country: l10n.TaxCountryCode(cc), Code: cbc.Code(code)}}
 		if err := p.Validate(); err != nil {
 			partyErr = err.Error()
@@ -279,6 +291,10 @@ func runCases(c *core.Ctx, byCC map[string]*regime, cases []tcase) int {
 		switch t.Kind {
 		case "v":
 			x := vr[i]
+			if strings.HasPrefix(x.pan, "scheme-dependent") {
+				c.Fail("", fmt.Sprintf("%s %q: %s", t.CC, t.Code, x.pan), t)
+				continue
+			}
 			if x.pan != "" {
 				c.Fail("", fmt.Sprintf("validation of %s %q panicked: %s", t.CC, t.Code, x.pan), t)
 				continue
